@@ -16,12 +16,13 @@ UNITS = {
     "scalar64": {"driver": "Scalar64", "harness": "ops_scalar64", "gens": "scalar64", "props": {}},
     "sha2": {"driver": "Sha2", "harness": "ops_sha2", "gens": "sha2",
              "props": {"C01": ["CxVerif.Props.C01.Sha2"], "C02": ["CxVerif.Props.C02.Sha2"]}},
-    "mackdf": {"driver": "MacKdf", "harness": "ops_mackdf", "gens": "mackdf", "props": {}},
+    "mackdf": {"driver": "MacKdf", "harness": "ops_mackdf", "gens": "mackdf",
+               "props": {"C08": ["CxVerif.Props.C08.Hmac"], "C09": ["CxVerif.Props.C09.MacDigest"], "C10": ["CxVerif.Props.C10.Kdf"]}},
     "sha3": {"driver": "Sha3", "harness": "ops_sha3", "gens": "sha3",
              "props": {"C01": ["CxVerif.Props.C01.Sha3"], "C02": ["CxVerif.Props.C02.Sha3"]}},
     "stream": {"driver": "Stream", "harness": "ops_stream", "gens": "stream",
                "props": {"C03": ["CxVerif.Props.C03.Stream"], "C04": ["CxVerif.Props.C04.Stream"], "C16": ["CxVerif.Props.C16.ChaCha"]}},
-    "ed25519": {"driver": "Ed25519", "harness": "ops_ed25519", "gens": "ed25519", "props": {}},
+    "ed25519": {"driver": "Ed25519", "harness": "ops_ed25519", "gens": "ed25519", "props": {"C15": ["CxVerif.Props.C15.Ge"]}},
     "argon2": {"driver": "Argon2", "harness": "ops_argon2", "gens": "argon2", "props": {"C11": ["CxVerif.Props.C11.Argon2"]}},
     "aead": {"driver": "Aead", "harness": "ops_aead", "gens": "aead",
              "props": {"C06": ["CxVerif.Props.C06.Aead"], "C07": ["CxVerif.Props.C07.Aead"], "C20": ["CxVerif.Props.C20.Aead"]}},
